@@ -32,6 +32,7 @@ EXPLANATION = (
     "(include_deleted=True) is filed in a live dictionary only after restore()/`deleted = False`, a re-binding to a new object, or "
     "on the not-deleted / not-found edge; describe_state of FileSystem/Folder/File stores nothing on the object; R15.8 = C05's R5.6 "
     "(an insertion into a routed collection registers the route on the same path, unconditionally) applied here. R15.9 = C11's R11.4 (the exists / not-deleted permission rules compute their documented predicate over the request's own arguments) applied here. "
+    "R15.10 name look-ups that may return deleted items (FileSystem.get_folder, Folder.get_file) consult the live mapping first. "
     "NOT decided: "
     "bounded-exhaustive sequence conformance against a reference model."
 )
@@ -624,6 +625,41 @@ def r15_7(ctx: Ctx) -> None:
 
 
 
+def r15_10(ctx: Ctx) -> None:
+    """A look-up by name that may also return deleted items must prefer the live one: names are reused (delete X, create X again),
+    and the not-deleted permission rules, restore and the observations all go through these look-ups.  Structurally: the deleted
+    mapping is consulted only after the scan of the live mapping is exhausted; a merged mapping lists the live one first."""
+    ix = ctx.ix
+    ctx.rule("R15.10", "name look-ups with include_deleted consult the live mapping first (the deleted mapping only after the live scan is "
+                       "exhausted; in a merged mapping the live entries come first)")
+    n = 0
+    for spec, live, dead in (("FileSystem.get_folder", "folders", "deleted_folders"), ("Folder.get_file", "files", "deleted_files")):
+        f = ix.method(spec)
+        g = CFG(f.node)
+        lt, dt = f"self.{live}", f"self.{dead}"
+        merged = [d for d in ast.walk(f.node) if isinstance(d, ast.Dict) and any(k is None for k in d.keys)
+                  and {unparse(v) for k, v in zip(d.keys, d.values) if k is None} >= {lt, dt}]
+        for d in merged:
+            order = [unparse(v) for k, v in zip(d.keys, d.values) if k is None]
+            ok = order.index(lt) < order.index(dt)
+            n += 1
+            ctx.record("R15.10", ctx.key(f, "merged mapping lists the live items first"), f.loc(d), ok,
+                       f"{{{', '.join('**' + o for o in order)}}}" + ("" if ok else ": iteration meets the deleted namesake before the live item"))
+        if merged:
+            continue
+        live_loops = [x for x in g.nodes if x.kind == "for" and unparse(x.ast.iter).startswith(lt)]
+        dead_nodes = [x for x in g.nodes if x.kind in ("for", "stmt", "cond") and x.expr_root() is not None and any(
+            unparse(y) == dt for y in ast.walk(x.ast.iter if x.kind == "for" else x.expr_root()))]
+        if not live_loops or not dead_nodes:
+            raise AnalysisError(f"R15.10: {spec} no longer scans self.{live} and self.{dead} in a recognisable way")
+        p = g.path_avoiding(dead_nodes, lambda e: bool(e.label and e.label[0] == "iter" and e.label[2] is False and any(e.src is l for l in live_loops)))
+        n += 1
+        ctx.record("R15.10", ctx.key(f, "the deleted mapping is consulted only after the live scan is exhausted"), f.loc(dead_nodes[0].ast), p is None,
+                   f"self.{dead} is reached only past the exhausted scan of self.{live}" if p is None else
+                   f"self.{dead} can be searched before self.{live}: a deleted namesake shadows the live item", path_text(p))
+    ctx.floor("R15.10", "name look-ups that may return deleted items", n, 2)
+
+
 def check(ctx: Ctx) -> None:
     r15_1(ctx)
     r15_2(ctx)
@@ -642,3 +678,4 @@ def check(ctx: Ctx) -> None:
     from . import c11
     with ctx.borrowed({"R11.4": "R15.9"}):
         c11.r11_4(ctx)
+    r15_10(ctx)
